@@ -22,10 +22,10 @@ for i in range(0,len(kv),2): d[kv[i]]=kv[i+1]
 json.dump(d,open(p,'w'),indent=1)
 PY
 }
-rm -f "$dst/verification.json"
+[ -n "${RECHECK:-}" ] || rm -f "$dst/verification.json"   # RECHECK=1: keep earlier results, skip the baseline suite
 ( cd "$scratch" && patch -p1 -s < "$dst/patch.diff" ) && res patch_applies yes || { res patch_applies no; echo "PATCH DOES NOT APPLY"; exit 1; }
 ( cd "$scratch" && go build -overlay $kit/overlay.json ./... ) >/tmp/seedchk_$id.build 2>&1 && res builds yes || { res builds no; echo "BUILD FAILS"; tail -5 /tmp/seedchk_$id.build; exit 1; }
-n=$( cd "$scratch" && go test -mod=mod -json -vet=off -count=1 -timeout 25m ./... 2>/dev/null | python3 -c "
+[ -n "${RECHECK:-}" ] || { n=$( cd "$scratch" && go test -mod=mod -json -vet=off -count=1 -timeout 25m ./... 2>/dev/null | python3 -c "
 import sys,json
 p=f=0
 for l in sys.stdin:
@@ -35,7 +35,7 @@ for l in sys.stdin:
     if e.get('Test') and e.get('Action')=='fail': f+=1
 print(p,f)")
 res baseline_pass_fail "$n"
-echo "baseline pass/fail: $n"
+echo "baseline pass/fail: $n"; }
 echo "--- check $prop against patched copy"
 ( cd /verif && VERIF_REPO=$scratch ./check $prop "$@" ) > /tmp/seedchk_$id.check 2>&1
 rc=$?
